@@ -50,8 +50,8 @@ class FileFormatError(Exception):
 
 def cdb_hash(key):
     h = 5381
-    for c in key:
-        h = (h + (h << 5)) & 0xffffffff ^ ord(c)
+    for c in bytearray(key):
+        h = (h + (h << 5)) & 0xffffffff ^ c
     return h
 
 
